@@ -70,20 +70,40 @@ def line_of(d):
     return "%s-%s:%s-%s.%s" % (d["name"], e, v, r, d["arch"])
 
 
-def make_rpm(x, variant):
-    """Build an InstalledRpm for the triple through one of the public constructors."""
+class OwnRpm(InstalledRpm):
+    """A package class of the driver's own derived from InstalledRpm (as YumListRpm is)."""
+
+
+def rpm_class(name):
+    if name == "InstalledRpm":
+        return InstalledRpm
+    if name == "YumListRpm":
+        from insights.parsers.yum_list import YumListRpm
+        return YumListRpm
+    if name == "OwnRpm":
+        return OwnRpm
+    raise ValueError("driver: unknown package class %r" % name)
+
+
+CLASS_PAIRS = [("InstalledRpm", "InstalledRpm"), ("YumListRpm", "InstalledRpm"), ("InstalledRpm", "YumListRpm"),
+               ("YumListRpm", "YumListRpm")]
+OWN_PAIRS = [("OwnRpm", "InstalledRpm"), ("InstalledRpm", "OwnRpm"), ("OwnRpm", "YumListRpm")]
+
+
+def make_rpm(x, variant, cls=InstalledRpm):
+    """Build a package object of class cls for the triple through one of the public constructors."""
     d = evr_dict(x)
     k = variant % 3
     if k == 1:
-        return InstalledRpm.from_json(json.dumps(d))
+        return cls.from_json(json.dumps(d))
     if k == 2:
         ln = line_of(d)
         if ln is not None:
-            p = InstalledRpm.from_package(ln)
+            p = cls.from_package(ln)
             if (p.version, p.release, p.name) == (d["version"], d["release"], d["name"]):
                 STATS["line_format"] += 1
                 return p
-    return InstalledRpm(d)
+    return cls(d)
 
 
 def ops(x, y):
@@ -194,27 +214,35 @@ def select(evrs, idxs):
     return events
 
 
-def safe_rpm(x, variant):
+def safe_rpm(x, variant, cls="InstalledRpm"):
     try:
-        return make_rpm(x, variant)
+        p = make_rpm(x, variant, rpm_class(cls))
+        if type(p) is not rpm_class(cls):
+            raise TypeError("constructor returned %r" % type(p))
+        return p
     except Exception:
         STATS["raised"] += 1
         return None                          # every call on it is then recorded as raised
 
 
 def erows(job):
+    """Every row of the EVR table in every pairing of package classes (a declared dimension of the
+    case: lc / rc = class of the left / right operand); left and right operands are distinct objects."""
     evrs = job["evrs"]
     variant = job.get("variant", 0)
-    left = [safe_rpm(x, variant + n) for n, x in enumerate(evrs)]
-    right = [safe_rpm(x, variant + n + 1) for n, x in enumerate(evrs)]     # distinct objects
+    classes = sorted(set(c for pr in CLASS_PAIRS + OWN_PAIRS for c in pr))
+    left = dict((c, [safe_rpm(x, variant + n, c) for n, x in enumerate(evrs)]) for c in classes)
+    right = dict((c, [safe_rpm(x, variant + n + 1, c) for n, x in enumerate(evrs)]) for c in classes)
     events = []
     for i in job["rows"]:
-        a = left[i - 1]
-        cmp_ = [call(rpm_version_compare, a, b) for b in right]
-        o = [ops(a, b) for b in right]
-        STATS["evr_calls"] += len(cmp_)
-        STATS["op_calls"] += 6 * len(o)
-        events.append({"ev": "erow", "a": i, "cmp": cmp_, "ops": o})
+        for lc, rc in CLASS_PAIRS + (OWN_PAIRS if i % 3 == 0 else []):
+            a = left[lc][i - 1]
+            cmp_ = [call(rpm_version_compare, a, b) for b in right[rc]]
+            o = [ops(a, b) for b in right[rc]]
+            STATS["evr_calls"] += len(cmp_)
+            STATS["op_calls"] += 6 * len(o)
+            STATS["pair_%s_%s" % (lc, rc)] = STATS.get("pair_%s_%s" % (lc, rc), 0) + len(o)
+            events.append({"ev": "erow", "a": i, "lc": lc, "rc": rc, "cmp": cmp_, "ops": o})
     for idxs in job.get("sel", []):
         events.extend(select(evrs, idxs))
     return {"id": job["id"], "strs": [], "evrs": evrs, "events": events}
